@@ -16,7 +16,7 @@ func init() {
 		Level: "other",
 		Explanation: "Structural necessary conditions of 'batch operations equal the per-entity operations they abbreviate': " +
 			"(R1) select before mutate: in every batch operation the table enumeration precedes the first row mutation and is not repeated after one; " +
-			"(R2) bulk moves follow the move protocol (C01/R4), no table pointer is used after the table slice may have grown without being re-derived (C01/R5), and the (table, start, count) handed to the batch callback are the destination table, the destination's length read before the move (or the start returned by it) and the moved count; records written back into a batch list are written through a pointer or index, never into a range-value copy; " +
+			"(R2) bulk moves follow the move protocol (C01/R4), no table pointer is used after the table slice may have grown without being re-derived (C01/R5), and the (table, start, count) handed to the batch callback are the destination table, the destination's length read before the move (or the start returned by it) and the moved count; records written back into a batch list are written through a pointer or index, never into a range-value copy (R8: no field assignment and no storing pointer-receiver method call on a range-value copy whose result is dropped, anywhere in the package); " +
 			"(R3) row coherence: wherever a callback receives T.GetEntity(i) together with component pointers col.Get(j), i and j are the same expression and every col is a column of table T; " +
 			"(R4) deferred cleanup: in the batch entity removal no call that can free or move tables lies inside the loop over the selected tables; (R5) callbacks run under the internal lock (C07/R2); " +
 			"(R6) scratch exclusivity: while a function holds a scratch slice of the storage (taken into a local, not yet handed back) it calls no function that itself takes that scratch slice. " +
@@ -30,6 +30,7 @@ func init() {
 			{ID: "C06/R5", Run: c07r2r3, Min: 1},
 			{ID: "C06/R6", Run: c06r6, Min: 1},
 			{ID: "C01/R9", Run: c01r9, Min: 1},
+			{ID: "C06/R8", Run: c06r8, Min: 1},
 		},
 	})
 }
@@ -233,49 +234,6 @@ func c06r2(c *core.Ctx) {
 			return true
 		})
 	}
-	// lost updates: assignment to a field of a range-value copy
-	for _, f := range m.AllFuncs() {
-		core.InspectNoLits(f.Body, func(n ast.Node) bool {
-			rs, ok := n.(*ast.RangeStmt)
-			if !ok || rs.Value == nil {
-				return true
-			}
-			id, ok := rs.Value.(*ast.Ident)
-			if !ok {
-				return true
-			}
-			v, ok := m.Info.ObjectOf(id).(*types.Var)
-			if !ok {
-				return true
-			}
-			if _, isStruct := v.Type().Underlying().(*types.Struct); !isStruct {
-				return true
-			}
-			ast.Inspect(rs.Body, func(x ast.Node) bool {
-				if as, isAs := x.(*ast.AssignStmt); isAs {
-					for _, l := range as.Lhs {
-						if sel, isS := ast.Unparen(l).(*ast.SelectorExpr); isS {
-							if bid, isID := ast.Unparen(sel.X).(*ast.Ident); isID && m.Info.ObjectOf(bid) == v {
-								// is the copy read afterwards in the loop body?
-								readLater := false
-								ast.Inspect(rs.Body, func(y ast.Node) bool {
-									if uid, isU := y.(*ast.Ident); isU && uid.Pos() > as.End() && m.Info.ObjectOf(uid) == v {
-										readLater = true
-									}
-									return true
-								})
-								if !readLater {
-									c.Violation("C06/R2", fmt.Sprintf("%s: %s", f.Name, m.ExprString(l)), c.At(as.Pos()), fmt.Sprintf("%s assigns %s, a field of the per-iteration copy of a %s element; the update is lost (the slice element keeps its old value)", f.Name, m.ExprString(l), core.NamedName(v.Type())))
-								}
-							}
-						}
-					}
-				}
-				return true
-			})
-			return true
-		})
-	}
 	// the batch record write-back exists: the start row of batch records is stored through a pointer or index.
 	// The record type is the element type of the scratch list of batch records (found by type, not by name).
 	recType := ""
@@ -338,6 +296,112 @@ func c06r2(c *core.Ctx) {
 			c.Violation("C06/R2", subject, c.At(f.Pos()), fmt.Sprintf("%s reads %v of batch records but never stores them into the batch list; later passes would iterate rows [0,len) of the destination instead of the moved block", f.Name, needs))
 		}
 	}
+}
+
+// c06r8: no lost updates on range-value copies. In `for _, v := range xs` over a slice of struct values, v is a copy:
+// an assignment to a field of v, or a pointer-receiver method that stores into the struct itself, changes the copy and
+// not the element — unless the copy is used again afterwards in the same iteration (then it is a working copy).
+func c06r8(c *core.Ctx) {
+	m := c.M
+	n := 0
+	// lost updates: assignment to a field of a range-value copy
+	for _, f := range m.AllFuncs() {
+		core.InspectNoLits(f.Body, func(nd ast.Node) bool {
+			rs, ok := nd.(*ast.RangeStmt)
+			if !ok || rs.Value == nil {
+				return true
+			}
+			id, ok := rs.Value.(*ast.Ident)
+			if !ok {
+				return true
+			}
+			v, ok := m.Info.ObjectOf(id).(*types.Var)
+			if !ok {
+				return true
+			}
+			if _, isStruct := v.Type().Underlying().(*types.Struct); !isStruct {
+				return true
+			}
+			ast.Inspect(rs.Body, func(x ast.Node) bool {
+				// a method with a pointer receiver called on the copy: whatever it stores in the struct itself (not through
+				// a pointer, slice or map held by it) is stored in the copy and lost
+				if call, isCall := x.(*ast.CallExpr); isCall {
+					if sel, isS := ast.Unparen(call.Fun).(*ast.SelectorExpr); isS {
+						if bid, isID := ast.Unparen(sel.X).(*ast.Ident); isID && m.Info.ObjectOf(bid) == v {
+							// a method called for its result works on the copy by design (the copy is its scratch); only a call made
+							// for its effect alone is a lost update
+							if k, cal, _ := m.Callee(call); k == core.CallStatic && cal.Sig != nil && cal.Sig.Recv() != nil && cal.Sig.Results().Len() == 0 {
+								if _, ptrRecv := cal.Sig.Recv().Type().(*types.Pointer); ptrRecv {
+									lost := ""
+									for _, st := range c.Eff.Stores(cal) {
+										if st.Path.Kind == core.RootParam && st.Path.Index == -1 && len(st.Path.Keys) > 0 && storedInStructItself(m, st.Path.Keys) {
+											lost = st.Path.Last()
+											break
+										}
+									}
+									readLater := false
+									ast.Inspect(rs.Body, func(y ast.Node) bool {
+										if uid, isU := y.(*ast.Ident); isU && uid.Pos() > call.End() && m.Info.ObjectOf(uid) == v {
+											readLater = true
+										}
+										return true
+									})
+									if lost != "" && !readLater {
+										c.Violation("C06/R8", fmt.Sprintf("%s: %s", f.Name, m.ExprString(call)), c.At(call.Pos()), fmt.Sprintf("%s calls %s on the per-iteration copy of a %s element; what the method stores in the struct itself (%s) is stored in the copy and lost, the slice element keeps its old state", f.Name, cal.Name, core.NamedName(v.Type()), lost))
+									}
+								}
+							}
+						}
+					}
+				}
+				if as, isAs := x.(*ast.AssignStmt); isAs {
+					for _, l := range as.Lhs {
+						if sel, isS := ast.Unparen(l).(*ast.SelectorExpr); isS {
+							if bid, isID := ast.Unparen(sel.X).(*ast.Ident); isID && m.Info.ObjectOf(bid) == v {
+								// is the copy read afterwards in the loop body?
+								readLater := false
+								ast.Inspect(rs.Body, func(y ast.Node) bool {
+									if uid, isU := y.(*ast.Ident); isU && uid.Pos() > as.End() && m.Info.ObjectOf(uid) == v {
+										readLater = true
+									}
+									return true
+								})
+								if !readLater {
+									c.Violation("C06/R8", fmt.Sprintf("%s: %s", f.Name, m.ExprString(l)), c.At(as.Pos()), fmt.Sprintf("%s assigns %s, a field of the per-iteration copy of a %s element; the update is lost (the slice element keeps its old value)", f.Name, m.ExprString(l), core.NamedName(v.Type())))
+								}
+							}
+						}
+					}
+				}
+				return true
+			})
+			return true
+		})
+	}
+	_ = n
+	c.OK("C06/R8", "range-value copies", "", "no field assignment or storing pointer-receiver call on a per-iteration copy whose result is dropped")
+}
+
+// storedInStructItself: the field path stays inside the memory of the root struct (no hop through a pointer, slice or
+// map field, no element access), so a store along it is lost when the root is a copy.
+func storedInStructItself(m *core.Model, keys []string) bool {
+	for i, k := range keys {
+		if k == "[]" {
+			return false
+		}
+		if i == len(keys)-1 {
+			break
+		}
+		fv := m.FieldByKey(k)
+		if fv == nil {
+			return false
+		}
+		switch fv.Type().Underlying().(type) {
+		case *types.Pointer, *types.Slice, *types.Map, *types.Chan, *types.Interface:
+			return false
+		}
+	}
+	return true
 }
 
 // c06r3: row coherence of callbacks.
